@@ -13,8 +13,9 @@ FULL statement of DESIGN §4 C15 (not all of it is proved here):
         allow-force-update / is-root requests) ∧ (max keys equal / min keys included along edges) ∧
         (tree ids agree along edges) ∧ (namespace map = the accepted objects' annotations, injective).
 Proved below: the `Forest` part in full (`accept_preserves_WF_partial`, every request, every history,
-including acyclicity by the rank argument).  The remaining clauses (min/max, min-sum, keys, tree id,
-namespaces) are evaluated by the harness oracle on every generated history but have no Lean proof yet.
+including acyclicity by the rank argument) and the min/max clause (`accept_preserves_minmax`).
+MISSING in Lean: min-sum, keys along edges, tree id along edges, namespace map — these clauses are
+evaluated by the harness oracle on every generated history but have no Lean proof yet.
 Out of the model: a create request for an object NAMED koordinator-root-quota (hypothesis `NotRootAdd`).
 -/
 namespace KoordVerif.C15
@@ -122,6 +123,52 @@ theorem delete_guard (s : Topo) (n : Nat) (labelPods : Bool) (hF : Forest s)
   refine ⟨?_, hlp⟩
   intro c hc e
   exact hasKids_false hnk c.name ((hF.kidsOK _ _).mpr ⟨c, hc, rfl, e⟩)
+
+/-! ### 6. min never exceeds max, min only in dimensions max declares, amounts non-negative -/
+
+def SelfQ (d : Nat) (q : QI) : Prop :=
+  ∀ k, k < d → 0 ≤ q.mn.val k ∧ 0 ≤ q.mx.val k ∧ (∀ a, q.mn.get k = some a → ∃ b, q.mx.get k = some b ∧ a ≤ b)
+
+def SelfOK (d : Nat) (s : Topo) : Prop := ∀ q ∈ s.info, SelfQ d q
+
+theorem selfOK_true {d : Nat} {q : QI} {sw : Bool} (h : selfOK d q sw = true) : SelfQ d q := by
+  unfold selfOK negD minInMax at h
+  simp only [Bool.and_eq_true, Bool.not_not, Bool.not_eq_true', allD_iff] at h
+  obtain ⟨⟨⟨h1, h2⟩, _⟩, h3⟩ := h
+  intro k hk
+  refine ⟨by simpa using h2 k hk, by simpa using h1 k hk, ?_⟩
+  intro a ha
+  have h3k := h3 k hk
+  simp only [ha] at h3k
+  cases hb : q.mx.get k with
+  | none => simp [hb] at h3k
+  | some b => exact ⟨b, rfl, by simpa [hb] using h3k⟩
+
+theorem accept_preserves_minmax (d : Nat) (s : Topo) (op : Op) (hS : SelfOK d s)
+    (h : (step d s op).2 = true) : SelfOK d (step d s op).1 := by
+  cases op with
+  | add q sw =>
+    obtain ⟨_, _, hself, _, hst⟩ := validAdd_true h
+    simp only [step]; rw [hst]
+    intro c hc
+    simp only [addState, List.mem_cons] at hc
+    rcases hc with rfl | hc
+    · exact selfOK_true hself
+    · exact hS c hc
+  | upd q sw hp =>
+    simp only [step]
+    rcases validUpdate_true h with hst | ⟨o, _, _, _, hself, _, hst⟩
+    · rw [hst]; exact hS
+    · rw [hst]; intro c hc
+      rcases mem_replace hc with ⟨hcq, _⟩ | ⟨hc, _⟩
+      · subst hcq; exact selfOK_true hself
+      · exact hS c hc
+  | del n lp =>
+    simp only [step]
+    obtain ⟨o, _, _, _, hst⟩ := validDelete_true h
+    rw [hst]; intro c hc
+    simp only [delState, List.mem_filter] at hc
+    exact hS c hc.1
 
 /-! ### non-vacuity: the hypotheses are met by a non-trivial history, and the guards do reject -/
 
